@@ -250,6 +250,137 @@ theorem accept_sound (r : Registry) (c : Cfg) (h : validate r c = .ok) :
         | crash => rw [hcs] at h; simp at h
   · simp [hu] at h
 
+
+/-! ### completeness: a consistent configuration is accepted -/
+
+theorem typedN_reg (r : Registry) (input : Ty) (n : Node) (h : typedN r input n = true) :
+    ∃ reg, r.node n.name = some reg ∧ reg.consumes = input := by
+  match n with
+  | .mk id name w b cs hh =>
+    simp only [typedN] at h
+    cases hr : r.node name with
+    | none => simp [hr] at h
+    | some reg =>
+      simp only [hr, Bool.and_eq_true, decide_eq_true_eq] at h
+      exact ⟨reg, by simp [Node.name, hr], h.1.1⟩
+
+theorem typedL_all (r : Registry) (input : Ty) (ns : List Node) (h : typedL r input ns = true) :
+    ∀ c ∈ ns, typedN r input c = true := by
+  induction ns with
+  | nil => intro c hc; cases hc
+  | cons a t ih =>
+    simp only [typedL, Bool.and_eq_true] at h
+    intro c hc
+    rcases List.mem_cons.1 hc with rfl | hc
+    · exact h.1
+    · exact ih h.2 c hc
+
+mutual
+theorem checkNode_complete (r : Registry) (n : Node) (input : Ty) (h : typedN r input n = true) : checkNode r n = .ok := by
+  match n with
+  | .mk id name w b cs hh =>
+    simp only [typedN] at h
+    cases hr : r.node name with
+    | none => simp [hr] at h
+    | some reg =>
+      simp only [hr, Bool.and_eq_true, decide_eq_true_eq] at h
+      obtain ⟨⟨hcons, hho⟩, hprod⟩ := h
+      have hhandler : checkHandlerO r hh = .ok := by
+        match hh with
+        | none => rfl
+        | some hn => exact (checkHandler_iff r hn).2 (by simpa [handlerOkO] using hho)
+      simp only [checkNode, hr]
+      cases hp : reg.produces with
+      | none =>
+        rw [hp] at hprod
+        have hcs : cs = [] := by cases cs <;> simp_all
+        subst hcs
+        simp [checkChildTypes, hhandler, checkNodes]
+      | some out =>
+        rw [hp] at hprod
+        have hall := typedL_all r out cs hprod
+        have hct : checkChildTypes r reg cs = .ok := by
+          rw [checkChildTypes_ok]
+          intro c hc
+          obtain ⟨creg, h1, h2⟩ := typedN_reg r out c (hall c hc)
+          exact ⟨creg, h1, by rw [hp, h2]⟩
+        simp only [hct, hhandler]
+        exact checkNodes_complete r cs out hprod
+theorem checkNodes_complete (r : Registry) (ns : List Node) (input : Ty) (h : typedL r input ns = true) : checkNodes r ns = .ok := by
+  match ns with
+  | [] => rfl
+  | c :: cs =>
+    simp only [typedL, Bool.and_eq_true] at h
+    simp only [checkNodes, checkNode_complete r c input h.1]
+    exact checkNodes_complete r cs input h.2
+end
+
+theorem checkRoots_complete (r : Registry) (p : Ty) (ns : List Node) (h : typedL r p ns = true) : checkRoots r p ns = .ok := by
+  induction ns with
+  | nil => rfl
+  | cons a t ih =>
+    simp only [typedL, Bool.and_eq_true] at h
+    obtain ⟨reg, h1, h2⟩ := typedN_reg r p a h.1
+    simp only [checkRoots, h1]
+    have : ¬ p ≠ reg.consumes := by simp [h2]
+    simp only [this, if_false]
+    exact ih h.2
+
+mutual
+theorem spine_sublist (n : Node) : (spine n).Sublist (idsN n) := by
+  match n with
+  | .mk id name w b cs h =>
+    match cs with
+    | [] => simp [spine, idsN, idsL]
+    | c :: rest =>
+      simp only [spine, idsN, idsL]
+      exact List.Sublist.cons₂ _ ((spine_sublist c).trans (List.sublist_append_left _ _))
+end
+
+theorem spines_sublist (ns : List Node) : (spines ns).Sublist (idsL ns) := by
+  induction ns with
+  | nil => simp [spines, idsL]
+  | cons a t ih =>
+    simp only [spines, List.flatMap_cons, idsL]
+    exact List.Sublist.append (spine_sublist a) ih
+
+/-- **completeness**: a configuration that is consistent in the sense of the statement is accepted -/
+theorem consistent_accepted (r : Registry) (c : Cfg) (hids : (idsL c.nodes).Nodup)
+    (htr : match c.transport with | some t => t = "kafka" | none => True)
+    (p : Ty) (hsrc : r.source c.source = some p) (htyped : typedL r p c.nodes = true) : validate r c = .ok := by
+  unfold validate
+  have hu : uniqRoots [] c.nodes = true := by
+    rw [uniqRoots_iff]
+    exact ⟨List.Nodup.sublist (spines_sublist c.nodes) hids, fun x _ hx => by cases hx⟩
+  have htb : transportBad c.transport = false := by
+    cases ht : c.transport with
+    | none => rfl
+    | some t => rw [ht] at htr; simp [transportBad, htr]
+  have hcs : checkSource r c = .ok := by
+    unfold checkSource; rw [hsrc]; exact checkRoots_complete r p c.nodes htyped
+  simp [hu, htb, hcs, checkNodes_complete r c.nodes p htyped]
+
+/-- **what acceptance is, exactly, for the code as it stands**: accepted ⇔ every clause of consistency other than id
+uniqueness holds ∧ the ids along the first-child spines are pairwise distinct -/
+theorem accept_iff_partial (r : Registry) (c : Cfg) :
+    validate r c = .ok ↔
+      ((spines c.nodes).Nodup ∧ (match c.transport with | some t => t = "kafka" | none => True) ∧
+       ∃ p, r.source c.source = some p ∧ typedL r p c.nodes = true) := by
+  constructor
+  · intro h
+    exact ⟨accepted_spine_unique r c h, (accept_sound r c h).1, (accept_sound r c h).2⟩
+  · rintro ⟨hsp, htr, p, hsrc, htyped⟩
+    unfold validate
+    have hu : uniqRoots [] c.nodes = true := by
+      rw [uniqRoots_iff]; exact ⟨hsp, fun x _ hx => by cases hx⟩
+    have htb : transportBad c.transport = false := by
+      cases ht : c.transport with
+      | none => rfl
+      | some t => rw [ht] at htr; simp [transportBad, htr]
+    have hcs : checkSource r c = .ok := by
+      unfold checkSource; rw [hsrc]; exact checkRoots_complete r p c.nodes htyped
+    simp [hu, htb, hcs, checkNodes_complete r c.nodes p htyped]
+
 /-! ### the finding: duplicate ids off the first-child spine are accepted -/
 
 def tinyRegistry : Registry :=
